@@ -213,6 +213,19 @@ Theorem C14_nothing_after_stop_every_log : forall A (m : M A) s r s' l, Run m s 
 Proof. exact run_nothing_after_raise. Qed.
 Print Assumptions C14_nothing_after_stop_every_log.
 
+(* the whole program: the platform log of the evaluation [l] (nothing after the raise),
+   then at most the summary of the tests run so far [tail] *)
+Theorem C14_nothing_after_stop_program : forall fuel P s o s2,
+  st_check_after_yield s = true -> st_stopped s = false -> run_program fuel P s = (o, s2) ->
+  exists r s1 l tail,
+    Run (program_m fuel P) s r s1 l /\
+    st_trace s2 = tail ++ rev (effects l) ++ st_trace s /\ summary_tail tail /\
+    yields_of l = seq (st_yields s) (st_yields s2 - st_yields s) /\
+    ((st_stopped s2 = false /\ ~ In IRaise l)
+     \/ (st_stopped s2 = true /\ o = OErr EStopped /\ exists l0, l = l0 ++ [IRaise] /\ ~ In IRaise l0)).
+Proof. exact run_program_nothing_after_stop. Qed.
+Print Assumptions C14_nothing_after_stop_program.
+
 (* the OLD order of the stop test (flag tested only before the yield) *)
 Theorem C14_raise_at_entry_freezes_refuted_old :
   exists n P e x s, raise_now s /\ st_check_after_yield s = false /\
